@@ -10,8 +10,9 @@ git -C /repo worktree add -q --detach "$wt" HEAD || exit 2
 if ! git -C "$wt" apply "$here/seeded/$name/patch.diff"; then
     echo "$name: patch does not apply"; git -C /repo worktree remove --force "$wt"; exit 2
 fi
+out_dir=$(mktemp -d /dev/shm/seedout.XXXXXX)
 for p in "$@"; do
-    out=$(VERIF_REPO="$wt" VERIF_DIR="$here" "$here/check" "$p" "$tier" 2>&1); rc=$?
+    out=$(VERIF_REPO="$wt" VERIF_OUT="$out_dir" "$here/check" "$p" "$tier" 2>&1); rc=$?
     n=$(printf '%s\n' "$out" | grep -c '^VIOLATION')
     case $rc in
       1) echo "$name $p DETECTED ($n witnesses) $(printf '%s\n' "$out" | grep -m1 'clause=' | cut -c1-200)";;
@@ -19,5 +20,6 @@ for p in "$@"; do
       *) echo "$name $p OTHER(rc=$rc) $(printf '%s\n' "$out" | tail -2 | cut -c1-300)";;
     esac
 done
+rm -rf "$out_dir"
 git -C /repo worktree remove --force "$wt"
 git -C /repo worktree prune
